@@ -95,6 +95,8 @@ def run_unit(repo, unit, seed=None, rlimit=None, extra_args=(), timeout=600):
     cmd = ["verus", gen_path, "--output-json", "--time", "--error-format=json", "--multiple-errors", "20"]
     if seed is not None:
         cmd += ["--smt-option", "smt.random_seed=%d" % seed]
+    if rlimit is None and "rlimit" in gen.options:
+        rlimit = int(gen.options["rlimit"])
     if rlimit is not None:
         cmd += ["--rlimit", str(rlimit)]
     cmd += list(extra_args)
@@ -151,6 +153,11 @@ def run_unit(repo, unit, seed=None, rlimit=None, extra_args=(), timeout=600):
             for l in sorted(locs, reverse=True):
                 if l in linemap:
                     rf, rl = linemap[l]; break
+            if rf is None and locs:
+                # failing ghost text: report the nearest preceding repository line
+                for l in range(max(locs), 0, -1):
+                    if l in linemap:
+                        rf, rl = linemap[l]; break
             kind = re.sub(r"[^a-z]+", "-", msg.lower()).strip("-")[:48]
             res.failures.append(dict(function=fn2 if fn2 != "?" else fn, kind=kind, message=msg, gen_line=gl,
                                      repo_file=rf, repo_line=rl, rendered=d.get("rendered", "")[:3000]))
